@@ -41,7 +41,7 @@ type MetricSpec struct {
 }
 
 var IntVals = []int64{0, 1, -1, 7}
-var FloatVals = []float64{0, 1.5, -1, 1e300, math.Inf(1), math.NaN()}
+var FloatVals = []float64{0, 1.5, -1, 1e300, math.Inf(1), math.NaN(), math.Inf(-1)}
 var StrVals = []string{"", "hello", "a b", "\x1b[31mERR\x1b[0m", "q\"uo\\te"}
 var ObsSets = [][]float64{{}, {0.5}, {0.5, 1.5, 100}, {-3, 2, math.Inf(1)}, {math.NaN(), 1}}
 
